@@ -51,7 +51,17 @@ def run(ms, keep=False, verbose=True, target=None):
             # apply
             touched = {}
             applicable = True
-            for ed in m['edits']:
+            if m.get('patch'):
+                # a unified diff (relative to the repo root) applied before the string edits
+                pf = os.path.join(VERIF, m['patch'])
+                files = [l[6:].strip() for l in open(pf) if l.startswith('+++ b/')]
+                for f_ in files:
+                    fp = os.path.join(scratch, f_)
+                    touched.setdefault(fp, open(fp).read())
+                r = sh('patch -p1 --no-backup-if-mismatch -s < %s' % pf, cwd=scratch)
+                if r.returncode != 0:
+                    applicable = False
+            for ed in (m.get('edits', []) if applicable else []):
                 p = os.path.join(scratch, ed['file'])
                 src = open(p).read()
                 touched.setdefault(p, src)
